@@ -1,10 +1,18 @@
 """C05 — values cross the host boundary unchanged in both directions."""
+import glob
 import json
+import os
 import common
 
 PROPS = "RotoV.Props.C05"
 MODULES = ["RotoV.Model.BoundaryLayout", "RotoV.Model.Boundary", "RotoV.Lemmas.BoundaryArith", "RotoV.Lemmas.BoundaryPlace", "RotoV.Lemmas.BoundaryPinned",
            "RotoV.Lemmas.BoundaryLayout", "RotoV.Lemmas.BoundaryAbi", "RotoV.Lemmas.BoundaryValues"]
+# reads of host storage are copies: the store model of the LIR and its provenance check
+PROPS_STORE = "RotoV.Props.C05Store"
+MODULES_STORE = ["RotoV.Model.BoundaryStore", "RotoV.Lemmas.BoundaryStore"]
+# every read sees an assigned value: definite assignment on the blocks of the LIR
+PROPS_DEFUSE = "RotoV.Props.C05DefUse"
+MODULES_DEFUSE = ["RotoV.Model.BoundaryDefUse", "RotoV.Lemmas.BoundaryDefUse"]
 
 
 def search(ctx):
@@ -19,8 +27,19 @@ def search(ctx):
 
 
 def run(ctx):
+    # replay files of an earlier run must not survive into this one
+    for f in glob.glob(os.path.join(common.VERIF, "evidence", "replays", "C05-*.json")):
+        os.remove(f)
     ctx.extract(["boundary"])
-    ctx.prove(PROPS, extra_modules=MODULES)
+    theorems, examples, axioms = [], 0, {}
+    for props, mods in ((PROPS, MODULES), (PROPS_STORE, MODULES_STORE), (PROPS_DEFUSE, MODULES_DEFUSE)):
+        ctx.prove(props, extra_modules=mods)
+        theorems += ctx.coverage.get("theorems", [])
+        examples += ctx.coverage.get("nonvacuity_examples", 0)
+        axioms.update(ctx.coverage.get("axioms", {}))
+    ctx.coverage["theorems"] = theorems
+    ctx.coverage["nonvacuity_examples"] = examples
+    ctx.coverage["axioms"] = axioms
     if ctx.build_harness("c05"):
         ctx.harness("c05", ["run", ctx.seed, ctx.tier], timeout=3000)
     ctx.trusted += [
@@ -34,6 +53,11 @@ def run(ctx):
         "Layout::of::<T>() is the same on both sides for char, RotoString, IpAddr, Prefix, ErasedList (measured per run, "
         "arbitrary well-formed layouts in the theorems)",
         "the bodies of clone/drop of registered types and the list implementation are outside this property's model",
+        "store model (Props/C05Store): Rust code called from a script (registered functions, clone/drop/eq functions, list and "
+        "string operations) writes only through the pointers it is handed and returns no pointer into the host's cells "
+        "(Oracle.WellBehaved); heap objects with shared ownership that a host value points to (a List is a reference) are "
+        "not host cells in this model; the LIR the theorem is applied to is the hook's dump of the generated scripts, not of "
+        "every script",
     ]
     return ctx.finish(
         level="proof",
@@ -42,10 +66,17 @@ def run(ctx):
              "pairs; depth 2-3 nestings) x scenarios {identity, registered function echo, registered constant, context "
              "field in 3 manual + 3 derived field orders, script-side construction/matching/?/accept/reject, registered "
              "methods (sized and zero-sized receiver, static), list get/for, every argument position of arities 2/4/7 in "
-             "both directions directly and behind a script-to-script call, narrow-int arithmetic handed to Rust, library!-registered function/closure/method/constants} x edge "
+             "both directions directly and behind a script-to-script call, narrow-int arithmetic handed to Rust, library!-registered function/closure/method/constants, "
+             "read sites (the same constant / context field / argument read at 13 control-flow positions x selector-chosen "
+             "paths, every emitted and returned value compared), private copies (a local bound to a boundary read assigned "
+             "to in 13 shapes + a record constant holding a registered constant; host struct and constant compared "
+             "afterwards, also through a second package)} with class representatives (20 type families x every shape x "
+             "every source, fixed seed) first x edge "
              "values then random values; plus the model facts (layout, payload offsets, discriminant bytes at predicted "
              "offsets of real values, Lowerer::location offsets, lowered and runtime-call signatures) on the family, on "
-             "300/3000 random deeper types and 400/6000 random multi-parameter signatures against the Lean driver; a class "
+             "300/3000 random deeper types and 400/6000 random multi-parameter signatures against the Lean driver; the real LIR "
+             "(hook mem_ops) of the 632 generated read-site / private-copy programs against Func.check (provenance) and "
+             "Cfg.check (definite assignment) in the driver; a class "
              "is distinct by (scenario, position, size/align class signature of the type) with every round agreeing",
         search=search,
     )
